@@ -362,7 +362,7 @@ where
         self.values
             .get(index)
             .and_then(|opt| opt.as_ref())
-            .map(|ptr| unsafe { &*(ptr.as_ptr() as *const V) })
+            .map(|ptr| unsafe { &*(Self::value_ptr(ptr) as *const V) })
             .ok_or_else(|| ZiporaError::invalid_data("Invalid value index"))
     }
 
@@ -371,7 +371,7 @@ where
         self.values
             .get_mut(index)
             .and_then(|opt| opt.as_ref())
-            .map(|ptr| unsafe { &mut *(ptr.as_ptr() as *mut V) })
+            .map(|ptr| unsafe { &mut *Self::value_ptr(ptr) })
             .ok_or_else(|| ZiporaError::invalid_data("Invalid value index"))
     }
 
@@ -384,26 +384,38 @@ where
         }
     }
 
+    /// Address of the value stored in a pooled chunk: the chunk start rounded up to
+    /// the alignment of `V` (pool chunks are only aligned to the pool's own alignment).
+    #[inline]
+    fn value_ptr(ptr: &SecurePooledPtr) -> *mut V {
+        let p = ptr.as_ptr();
+        // SAFETY: allocate_pooled_value checked that the aligned value lies inside the chunk
+        unsafe { p.add(p.align_offset(mem::align_of::<V>())) as *mut V }
+    }
+
     /// Allocate a pooled value
     fn allocate_pooled_value(&mut self, value: V) -> Result<SecurePooledPtr> {
-        match &self.pool {
-            Some(pool) => {
-                let ptr = pool.allocate()?;
-                unsafe {
-                    std::ptr::write(ptr.as_ptr() as *mut V, value);
-                }
-                Ok(ptr)
-            }
-            None => {
-                // Use global pool
-                let pool = get_global_pool_for_size(mem::size_of::<V>());
-                let ptr = pool.allocate()?;
-                unsafe {
-                    std::ptr::write(ptr.as_ptr() as *mut V, value);
-                }
-                Ok(ptr)
-            }
+        // Values aligned more strictly than the small pool's chunks need room to be
+        // aligned inside the chunk
+        let slack = if mem::align_of::<V>() > 8 { mem::align_of::<V>() } else { 0 };
+        let ptr = match &self.pool {
+            Some(pool) => pool.allocate()?,
+            // Use global pool
+            None => get_global_pool_for_size(mem::size_of::<V>() + slack).allocate()?,
+        };
+        let offset = ptr.as_ptr().align_offset(mem::align_of::<V>());
+        let fits = offset
+            .checked_add(mem::size_of::<V>())
+            .map_or(false, |end| end <= ptr.size());
+        if !fits {
+            return Err(ZiporaError::invalid_data(
+                "Value does not fit into a chunk of the memory pool",
+            ));
         }
+        unsafe {
+            std::ptr::write(Self::value_ptr(&ptr), value);
+        }
+        Ok(ptr)
     }
 
     /// Resize the hash table
